@@ -235,6 +235,23 @@ def judge_write(ctx, args, kwargs, result, exc, pre):
         bad = match_rows(w, g, tk, lt1, rk)
         if bad:
             return ctx.violate("C06", "qua.write", name, f"{name}: {bad} [memory vs document]", wit, feat)
+    # which tempo is in force: of several timing points at one time the one listed later counts (memory: the later row).
+    # Probed 1 ms after every tempo point that has no other tempo point within the 2 ms after it (whole-ms StartTime).
+    mrows = sorted(mem["bpms"], key=lambda r: r["offset"])          # stable: equal offsets keep row order
+    drows = sorted([r for r in den["bpms"] if r["bpm"] is not None], key=lambda r: r["offset"])
+    offs = [r["offset"] for r in mrows]
+    for r in mrows:
+        p = r["offset"] + 1.0
+        if any(r["offset"] < o < r["offset"] + 2.0 for o in offs):
+            continue
+        want = [x for x in mrows if x["offset"] <= p][-1]["bpm"]
+        got_rows = [x for x in drows if x["offset"] <= p]
+        if not got_rows:
+            continue
+        got = float(got_rows[-1]["bpm"])
+        if abs(got - want) > 1e-9 * max(1.0, abs(want)):
+            return ctx.violate("C06", "qua.write", "tempo_in_force", f"at {p} ms the chart's tempo is {want}, the document's is {got} (timing points listed so that another one is in force)",
+                               wit, dict(feat, coincident_in_memory=len(set(offs)) != len(offs)))
     ctx.held("qua.write", "denotation")
     ctx.state("qua.write.case", (bool(mem["hits"]), bool(mem["holds"]), bool(mem["svs"]), feat["default_labels"]))
 
